@@ -500,7 +500,7 @@ class SimplicialComplex(Hypergraph):
                 except TypeError as e:
                     raise XGIError("Invalid ebunch format") from e
 
-                self._add_simplex(frozenset(members), idx)
+                self._add_simplex(frozenset(members), idx, **attr)
 
                 update_uid_counter(self, idx)
 
